@@ -156,6 +156,132 @@ func recvClosure(fn *ssa.Function) []*ssa.Function {
 	return out
 }
 
+// orderPreservingMap checks that fn maps its slice parameter element by element,
+// in order: the successful result is built only by appends inside ONE loop that
+// runs over the parameter itself from index 0 in steps of 1, each appended value
+// is derived from the element of that iteration, every iteration appends (no
+// element is skipped on a path that still succeeds), and nothing re-orders: no
+// sort / reverse / clone of the input. Returns a reason when it does not hold.
+func orderPreservingMap(v *FnView, param string) string {
+	fn := v.Fn
+	var elems []*ssa.UnOp
+	for _, b := range fn.Blocks {
+		for _, in := range b.Instrs {
+			switch x := in.(type) {
+			case *ssa.Call:
+				name := calleeName(x.Common())
+				if strings.HasPrefix(name, "slices.Sort") || strings.HasPrefix(name, "sort.") || name == "slices.Reverse" ||
+					strings.HasPrefix(name, "slices.Clone") || strings.HasPrefix(name, "slices.Compact") {
+					return "calls " + name
+				}
+			case *ssa.UnOp:
+				if ia, ok := x.X.(*ssa.IndexAddr); ok && x.Op.String() == "*" && v.S.Sym(ia.X) == param {
+					if !loopIndex(ia.Index, 0, 1) {
+						return "reads " + param + " at an index that does not run 0, 1, 2, ..."
+					}
+					elems = append(elems, x)
+				}
+			}
+		}
+	}
+	if len(elems) != 1 {
+		return fmt.Sprintf("%d places read an element of %s (one loop over the parameter itself is required)", len(elems), param)
+	}
+	elem := elems[0]
+	// the appends
+	nApp := 0
+	for _, b := range fn.Blocks {
+		for _, in := range b.Instrs {
+			call, ok := in.(*ssa.Call)
+			if !ok || calleeName(call.Common()) != "builtin:append" {
+				continue
+			}
+			els := appendedElems(call)
+			if len(els) != 1 {
+				continue
+			}
+			// only appends that reach a returned value
+			reaches := false
+			for _, rb := range fn.Blocks {
+				if r, isRet := rb.Instrs[len(rb.Instrs)-1].(*ssa.Return); isRet && dependsOn(r.Results[0], call) {
+					reaches = true
+				}
+			}
+			if !reaches {
+				continue
+			}
+			nApp++
+			if leaves := v.Leaves(els[0], 0); true {
+				ok := false
+				for k := range leaves {
+					if strings.Contains(k, v.S.Sym(elem)) {
+						ok = true
+					}
+				}
+				if !ok && !dependsOnDeep(els[0], elem, 6) {
+					return "appends a value that is not derived from the current element"
+				}
+			}
+			if !elem.Block().Dominates(call.Block()) {
+				return "an append is not inside the loop over " + param
+			}
+		}
+	}
+	if nApp != 1 {
+		return fmt.Sprintf("%d append site(s) build the result (exactly one per element is required)", nApp)
+	}
+	return ""
+}
+
+// dependsOnDeep: v is computed from src (operands, transitively, bounded).
+func dependsOnDeep(v, src ssa.Value, depth int) bool {
+	if v == src {
+		return true
+	}
+	if depth <= 0 {
+		return false
+	}
+	in, ok := v.(ssa.Instruction)
+	if !ok {
+		return false
+	}
+	for _, op := range in.Operands(nil) {
+		if *op != nil && dependsOnDeep(*op, src, depth-1) {
+			return true
+		}
+	}
+	return false
+}
+
+// receiverWrites lists the stores into fields of the receiver made by fn and the
+// methods it calls on the same receiver ("recv.<field>" addresses, also through
+// sub-fields and elements).
+func receiverWrites(fn *ssa.Function) []string {
+	var out []string
+	for _, f := range recvClosure(fn) {
+		s := NewSymer()
+		for _, b := range f.Blocks {
+			for _, in := range b.Instrs {
+				var addr ssa.Value
+				switch x := in.(type) {
+				case *ssa.Store:
+					addr = x.Addr
+				case *ssa.MapUpdate:
+					addr = x.Map
+				}
+				if addr == nil {
+					continue
+				}
+				if a := s.Sym(addr); strings.HasPrefix(a, "recv.") {
+					out = append(out, FuncName(f)+": "+a)
+				}
+			}
+		}
+	}
+	sort.Strings(out)
+	return out
+}
+
 // countCalls counts the static call sites of callee in fns.
 func countCalls(fns []*ssa.Function, callee string) int {
 	n := 0
